@@ -119,8 +119,13 @@ def run(ctx: Ctx) -> None:
             ev.call_dunder(set_, cont, [place, "w_in2"], env)
             after_set2 = dict(locals_)
             new_leafs = {w for o in ops[n_before2:] if o[0] == "UnpackTuple" for w in o[3]}
-        except (Unsupported, Raised) as e:
+        except Unsupported as e:
             ctx.undecided("R-C01.5", key, set_.where, f"{type(e).__name__}: {e}")
+            continue
+        except Raised as e:
+            # storing a well-formed value and reading it back must not fail (an internal compiler error for an accepted program)
+            ctx.violation("R-C01.5", key, set_.where, {"raises": str(e), "ops_so_far": [(o[0], o[2], o[3]) for o in ops]},
+                          "storing a struct/tuple value into a place and reading it back raises inside the compiler")
             continue
         problems = []
         # a. only leaves bound, one per unpack output
